@@ -52,6 +52,28 @@ def install_lines(ex: Explorer) -> None:
             return line_of(I, I.ghost["next_message"])
         return coro(go)
     ex.stubs[("reader", "readline")] = readline
+    ex.stubs[("reader", "readuntil")] = readline
+
+    def read(I: Interp, recv: V, args: list[V], kwargs: dict[str, V]) -> V:
+        """StreamReader.read(n): whatever segment has arrived - the whole pending line or any
+        non-empty proper prefix of it (TCP may split a line anywhere)"""
+        def go() -> V:
+            I.ghost["reads"] = I.ghost.get("reads", 0) + 1
+            if I.ghost["at_eof"]:
+                return VBytes(b"")
+            line = line_of(I, I.ghost["next_message"]).s
+            off = I.ghost.get("line_off", z3.IntVal(0))
+            rest = z3.Length(line) - off
+            if I.choose([z3.BoolVal(True)] * 2) == 0:
+                I.ghost["consumed"] = I.ghost.get("consumed", 0) + 1
+                I.ghost["line_off"] = z3.Length(line)
+                return strings.AsciiBytes(z3.SubString(line, off, rest))
+            k = I.fresh_int("segment", inp=True).t
+            I.assume(z3.And(k >= 1, k < rest))
+            I.ghost["line_off"] = off + k
+            return strings.AsciiBytes(z3.SubString(line, off, k))
+        return coro(go)
+    ex.stubs[("reader", "read")] = read
 
 
 def transport_obj(I: Interp, kind: str) -> VObj:
@@ -340,6 +362,42 @@ def native_server_order() -> tuple[bool, str]:
     return asyncio.run(go())
 
 
+def native_server_messages() -> tuple[bool, str]:
+    """every first byte 0x00..0xFF (and a few lengths): the bytes handed to the ECU model are
+    the bytes the tester wrote, one reply per request"""
+    import gallia.command  # noqa: F401
+    from gallia.services.uds import server as SV
+    seen: list[bytes] = []
+
+    class Rec(SV.TCPUDSServerTransport):  # type: ignore[misc]
+        def __init__(self) -> None:
+            pass
+
+        async def handle_request(self, pdu: bytes) -> tuple[bytes | None, float]:
+            seen.append(pdu)
+            return b"\x7f" + pdu[:1] + b"\x11", 0.0
+
+    async def go() -> tuple[bool, str]:
+        reqs = [bytes([b, 0x01]) for b in range(256)] + [bytes([0, 0x10, 1]), b"\x00", b"\x01",
+                                                        bytes([0x0a]) * 5, bytes(range(16))]
+        for q in reqs:
+            seen.clear()
+            r = asyncio.StreamReader()
+            r.feed_data(q.hex().encode() + b"\n" + b"3e00\n")
+            r.feed_eof()
+            w = _W()
+            try:
+                await asyncio.wait_for(Rec().handle_client(r, w), 2)  # type: ignore[arg-type]
+            except Exception as e:  # noqa: BLE001
+                return True, f"request {q.hex()}: handle_client raised {type(e).__name__}: {e}"
+            n_replies = len([x for x in w.data.split(b"\n") if x])
+            if seen != [q, b"\x3e\x00"] or n_replies != 2:
+                return True, (f"tester wrote {q.hex()} and 3e00: the ECU model received "
+                              f"{[x.hex() for x in seen]}, {n_replies} replies were sent")
+        return False, "261 requests are handed over byte-exact and answered once each"
+    return asyncio.run(go())
+
+
 LONG_LINE_SCRIPT = r"""
 import asyncio, json, logging, os, sys, tempfile
 logging.disable(logging.CRITICAL)
@@ -396,6 +454,54 @@ def native_long_line(which: str) -> tuple[bool, str]:
     return False, "scenario produced no result: " + p.stderr[-300:]
 
 
+def native_segmentation(kind: str) -> tuple[bool, str]:
+    """the real read() on a stream that delivers a line in two segments, and two lines in one"""
+    import logging
+    logging.disable(logging.CRITICAL)
+    import gallia.command  # noqa: F401
+    tcp, unix = T()
+    cls = tcp.TCPLinesTransport if kind == "tcp-lines" else unix.UnixLinesTransport
+
+    class W:
+        def write(self, b: bytes) -> None:
+            pass
+
+        async def drain(self) -> None:
+            pass
+
+        def close(self) -> None:
+            pass
+
+        async def wait_closed(self) -> None:
+            pass
+
+    async def go() -> tuple[bool, str]:
+        from gallia.transports.base import TargetURI
+        for m1, m2 in ((bytes(range(1, 9)), b"\x10\x03"), (b"\x00\x01", bytes(40))):
+            for cut in (1, 3, len(m1.hex())):
+                r = asyncio.StreamReader()
+                t = cls.__new__(cls)
+                t.reader, t.writer, t.is_closed = r, W(), False
+                t.mutex = asyncio.Lock()
+                t.target = TargetURI(f"{kind}://127.0.0.1:1")
+                line = m1.hex().encode() + b"\n"
+                r.feed_data(line[:cut])
+                asyncio.get_running_loop().call_later(0.05, r.feed_data, line[cut:] +
+                                                      m2.hex().encode() + b"\n")
+                got = []
+                for _ in range(2):
+                    try:
+                        got.append(await t.read(timeout=1.0))
+                    except Exception as e:  # noqa: BLE001
+                        got.append(f"{type(e).__name__}: {e}")
+                if got != [m1, m2]:
+                    return True, (f"{kind}: line {line!r} delivered as {line[:cut]!r} + rest, "
+                                  f"followed by a second line in the same segment: two reads "
+                                  f"returned {got}, written were {[m1, m2]}")
+        return False, f"{kind}: split and coalesced lines are read back one message per read"
+    return asyncio.run(go())
+
+
 def native_replay(unit: str, obligation: str, model: dict) -> tuple[bool, str]:
     import logging
     logging.disable(logging.CRITICAL)
@@ -403,10 +509,15 @@ def native_replay(unit: str, obligation: str, model: dict) -> tuple[bool, str]:
     from gallia.services.uds import server as SV
     if "timed-out-read" in obligation:
         return native_read_after_timeout()
+    if unit.endswith("-lines/read"):
+        return native_segmentation(unit.split("/")[0])
     if "answered-before-the-next-line" in obligation or "no-concurrent-reply" in obligation:
         return native_server_order()
     if unit.startswith("stream-limit/"):
         return native_long_line(unit)
+    if unit.startswith("server/") and ("handed-over" in obligation or "loop-ends-only" in
+                                       obligation or "one-reply" in obligation):
+        return native_server_messages()
     if "does-not-raise-when-the-client-disconnects" not in obligation:
         return False, "no native scenario for this obligation"
 
